@@ -20,6 +20,16 @@ Extension clause: the same Hy-only / Python-only programs saved under many
 file names and run through `hy FILE`, `python -m hy FILE`,
 `hy.importer.runhy.run_path` and `import`; ran-as-Hy <=> os.path.splitext(name)[1]
 is not one of importlib.machinery.SOURCE_SUFFIXES other than ".hy".
+
+Carve-outs (beyond DESIGN §7):
+* bare / `:as` requires only promise the *exported* macros (api.rst says "every
+  macro", the code uses the export list; either reading satisfies the oracle);
+* `(require pkg [submodule])` only promises the submodule's public macros;
+* a relative require inside a function is never generated (hy cannot compile it;
+  a module that does not compile is outside the property);
+* `.pyc`-named text files are not part of the extension pool (byte-code suffix,
+  not a source suffix — grey zone).
+Finding key: `local-require-submodule` (see RISKY).
 """
 import importlib.machinery
 import json
@@ -40,7 +50,7 @@ RULE = ("generated packages: one macro module (3-7 macros; private, dashed, Unic
         "distinct by rendered files. Plus extension-clause cases (file names x {hy FILE, python -m hy FILE, "
         "runhy.run_path, import}).")
 FLOOR = {"quick": 150, "thorough": 150}
-BUDGET = {"quick": 45, "thorough": 480}
+BUDGET = {"quick": 40, "thorough": 480}
 CASE_TIMEOUT = 150
 NEEDS_EVENTS = True      # events = positive byte-code-path detections + extension-clause observations
 ANCHORS = []   # the mechanisms run in child processes; in-process line probes cannot see them.
